@@ -86,6 +86,34 @@ CHECKS['C06'] = dict(
     note='Trusted: as C03. Known finding F9.',
     design='5 (C06), 3.2')
 
+CHECKS['C02'] = dict(
+    engine='h-runtime',
+    technique='Lean 4 proof (truthful store log of every serialisation primitive, detection of out-of-bounds stores, '
+              'fit check before every record write, no undefined shift) + event-stream correspondence + guard-page / '
+              'assertion oracle on the C tracer',
+    text='Partial. Proved: every serialisation primitive logs exactly the byte range it may modify and touches nothing '
+         'outside it; an out-of-range store is detected and halts the model; a record is serialised only if its size '
+         'at the offset where it is written fits the remaining packet (the check whose absence was finding F8, repaired '
+         'in /repo by a fix: commit); no shift amount reaches its operand width. Not proved: the global statement that '
+         'no history produces an out-of-bounds store (needs the size/serialise agreement for whole operation trees and '
+         'the position invariant). That is decided on the implementation: guard page flush against the buffer end, the C '
+         'assertion, crash detection on every history; ASan/UBSan builds in the thorough tier.',
+    note='Trusted: Lean kernel/standard axioms; differential tie; guard page granularity (upper end exact, lower end page). '
+         'F11 (2^32-bit wrap) is outside every run (unreplayed).',
+    design='5 (C02), 3.2')
+CHECKS['C05'] = dict(
+    engine='h-runtime',
+    technique='Lean 4 proof (timestamp invariant by induction over all API histories, two modes: inside/outside '
+              '_reserve_er_space) + event-stream correspondence + decoding of the timestamps of the C tracer packets',
+    text='Full over the model under NoWrap (the clock source does not wrap its C type during the history) for data '
+         'stream types with a default clock: the values written to timestamp positions are non-decreasing in write order '
+         '(beginning <= record timestamps <= end <= next beginning) and never exceed the clock; a record receives the '
+         'value sampled at the entry of its tracing call whatever packet switching _reserve_er_space does. Fields hold '
+         'the values modulo their size (C08). Tie: H-runtime with a scripted monotone clock and clock C types of '
+         '8..64 bits; oracle: decoded packet/record timestamps vs the clock log.',
+    note='Trusted: Lean kernel/standard axioms; differential tie; the Python TSDL parser/CTF reader. Known finding F9.',
+    design='5 (C05), 3.2')
+
 NOT_APPLICABLE = {
 }
 
